@@ -54,16 +54,17 @@ Record fsm := mkFsm {
   bm : list bool; tree : list key; lfbkoff : Z; lfbklen : Z;
   bmoff : Z; bmlen : Z; hdrlen : Z; bpow : Z; aunit : Z; fsize : Z;
   crzsum : Z; crznum : Z; p_crzsum : Z; p_crznum : Z; (* p_* = counters as last written to the file header *)
+  p_bmoff : Z; p_bmlen : Z;  (* bitmap offset / length as last written to the file header: what the next open is told *)
   strict : bool; vr : variant }.
 
-Definition set_bm s x := mkFsm x (tree s) (lfbkoff s) (lfbklen s) (bmoff s) (bmlen s) (hdrlen s) (bpow s) (aunit s) (fsize s) (crzsum s) (crznum s) (p_crzsum s) (p_crznum s) (strict s) (vr s).
-Definition set_tree s x := mkFsm (bm s) x (lfbkoff s) (lfbklen s) (bmoff s) (bmlen s) (hdrlen s) (bpow s) (aunit s) (fsize s) (crzsum s) (crznum s) (p_crzsum s) (p_crznum s) (strict s) (vr s).
-Definition set_lfbk s o l := mkFsm (bm s) (tree s) o l (bmoff s) (bmlen s) (hdrlen s) (bpow s) (aunit s) (fsize s) (crzsum s) (crznum s) (p_crzsum s) (p_crznum s) (strict s) (vr s).
-Definition set_bmloc s o l := mkFsm (bm s) (tree s) (lfbkoff s) (lfbklen s) o l (hdrlen s) (bpow s) (aunit s) (fsize s) (crzsum s) (crznum s) (p_crzsum s) (p_crznum s) (strict s) (vr s).
-Definition set_fsize s x := mkFsm (bm s) (tree s) (lfbkoff s) (lfbklen s) (bmoff s) (bmlen s) (hdrlen s) (bpow s) (aunit s) x (crzsum s) (crznum s) (p_crzsum s) (p_crznum s) (strict s) (vr s).
-Definition set_crz s sum num := mkFsm (bm s) (tree s) (lfbkoff s) (lfbklen s) (bmoff s) (bmlen s) (hdrlen s) (bpow s) (aunit s) (fsize s) sum num (p_crzsum s) (p_crznum s) (strict s) (vr s).
+Definition set_bm s x := mkFsm x (tree s) (lfbkoff s) (lfbklen s) (bmoff s) (bmlen s) (hdrlen s) (bpow s) (aunit s) (fsize s) (crzsum s) (crznum s) (p_crzsum s) (p_crznum s) (p_bmoff s) (p_bmlen s) (strict s) (vr s).
+Definition set_tree s x := mkFsm (bm s) x (lfbkoff s) (lfbklen s) (bmoff s) (bmlen s) (hdrlen s) (bpow s) (aunit s) (fsize s) (crzsum s) (crznum s) (p_crzsum s) (p_crznum s) (p_bmoff s) (p_bmlen s) (strict s) (vr s).
+Definition set_lfbk s o l := mkFsm (bm s) (tree s) o l (bmoff s) (bmlen s) (hdrlen s) (bpow s) (aunit s) (fsize s) (crzsum s) (crznum s) (p_crzsum s) (p_crznum s) (p_bmoff s) (p_bmlen s) (strict s) (vr s).
+Definition set_bmloc s o l := mkFsm (bm s) (tree s) (lfbkoff s) (lfbklen s) o l (hdrlen s) (bpow s) (aunit s) (fsize s) (crzsum s) (crznum s) (p_crzsum s) (p_crznum s) (p_bmoff s) (p_bmlen s) (strict s) (vr s).
+Definition set_fsize s x := mkFsm (bm s) (tree s) (lfbkoff s) (lfbklen s) (bmoff s) (bmlen s) (hdrlen s) (bpow s) (aunit s) x (crzsum s) (crznum s) (p_crzsum s) (p_crznum s) (p_bmoff s) (p_bmlen s) (strict s) (vr s).
+Definition set_crz s sum num := mkFsm (bm s) (tree s) (lfbkoff s) (lfbklen s) (bmoff s) (bmlen s) (hdrlen s) (bpow s) (aunit s) (fsize s) sum num (p_crzsum s) (p_crznum s) (p_bmoff s) (p_bmlen s) (strict s) (vr s).
 (* _fsm_write_meta_lw: what a later open reads back *)
-Definition write_meta s := mkFsm (bm s) (tree s) (lfbkoff s) (lfbklen s) (bmoff s) (bmlen s) (hdrlen s) (bpow s) (aunit s) (fsize s) (crzsum s) (crznum s) (crzsum s) (crznum s) (strict s) (vr s).
+Definition write_meta s := mkFsm (bm s) (tree s) (lfbkoff s) (lfbklen s) (bmoff s) (bmlen s) (hdrlen s) (bpow s) (aunit s) (fsize s) (crzsum s) (crznum s) (crzsum s) (crznum s) (bmoff s) (bmlen s) (strict s) (vr s).
 
 Definition has (opts flag : Z) : bool := negb (Z.land opts flag =? 0).
 Definition shl (x n : Z) : Z := Z.shiftl x n.
@@ -376,27 +377,39 @@ Definition clear (s : fsm) (trim : bool) : Z * fsm :=
 (* _fsm_sync *)
 Definition sync (s : fsm) : fsm := write_meta s.
 
-(* _fsm_close of a writable file: the state that is left in the file *)
+(* _fsm_close of a writable file: the state that is left in the file.  `if (fsm->root && (fsm->omode & IWFS_OWRITE))`:
+   with an empty free-extent tree (every block of the file allocated) the close neither trims nor writes the header -
+   what the next open is told about the bitmap is what the last _fsm_write_meta_lw before the close said. *)
 Definition close (s : fsm) (notrim : bool) : Z * fsm :=
   match tree s with
   | [] => (0, s)
   | _ => let '(rc, s1) := if notrim then (0, s) else trim_tail s in (rc, write_meta s1)
   end.
 
-(* iwfs_fsmfile_open of the file left by [close]: _fsm_read_meta_lr + _fsm_load_fsm_lw on a calloc'ed struct fsm *)
+(* iwfs_fsmfile_open of the file left by [close]: _fsm_read_meta_lr + _fsm_load_fsm_lw on a calloc'ed struct fsm.
+   The bitmap area is the one NAMED BY THE HEADER (p_bmoff, p_bmlen), not the one the closed handle used last.  When the
+   header names the current area ([hdr_current]) the bits found there are the current bitmap.  A header naming a former
+   area would expose bytes that are no longer the allocator's (the old area is released and reused by the client); file
+   contents are not modelled, [disk_bm] then stands for "p_bmlen * 8 bits nobody vouches for" (the driver answers such a
+   reopen with ?stale-header so that the differential run flags it).  Fsm_hdr_proofs.v: no path of the allocator
+   leaves the header behind (hdr_ok_run), so this branch is dead for every state the API can produce. *)
+Definition hdr_current (s : fsm) : bool := (p_bmoff s =? bmoff s) && (p_bmlen s =? bmlen s).
+Definition disk_bm (s : fsm) : list bool :=
+  if hdr_current s then bm s
+  else firstn (Z.to_nat (8 * p_bmlen s)) (bm s ++ repeat true (Z.to_nat (8 * p_bmlen s))).
 Definition reopen (s : fsm) (strict' mmap_all' : bool) : fsm :=
-  load_fsm (mkFsm (bm s) [] 0 0 (bmoff s) (bmlen s) (hdrlen s) (bpow s) (aunit s) (fsize s)
-                  (p_crzsum s) (p_crznum s) (p_crzsum s) (p_crznum s) strict'
+  load_fsm (mkFsm (disk_bm s) [] 0 0 (p_bmoff s) (p_bmlen s) (hdrlen s) (bpow s) (aunit s) (fsize s)
+                  (p_crzsum s) (p_crznum s) (p_crzsum s) (p_crznum s) (p_bmoff s) (p_bmlen s) strict'
                   (mkVariant (fx_lfbk (vr s)) (fx_strict (vr s)) (fx_sync (vr s)) (fx_short (vr s)) mmap_all')).
 
 (* iwfs_fsmfile_open of a new (truncated) file: _fsm_init_impl + _fsm_init_new_lw *)
 Definition open_new (v : variant) (obpow ohdrlen obmlen : Z) (strict' : bool) : Z * fsm :=
   let bp := if obpow =? 0 then FSM_DEFAULT_BPOW else obpow in
-  let s0 := mkFsm [] [] 0 0 0 0 0 bp FSM_AUNIT 0 0 0 0 0 strict' v in
+  let s0 := mkFsm [] [] 0 0 0 0 0 bp FSM_AUNIT 0 0 0 0 0 0 0 strict' v in
   if bp >? FSM_MAX_BLOCK_POW then (IWFS_ERROR_INVALID_BLOCK_SIZE, s0) else
   if pow2 bp >? FSM_AUNIT then (IWFS_ERROR_PLATFORM_PAGE, s0) else
   let hl := IW_ROUNDUP (uw 32 (ohdrlen + IWFSM_CUSTOM_HDR_DATA_OFFSET)) (pow2 bp) in
-  let s1 := mkFsm [] [] 0 0 0 0 (uw 32 hl) bp FSM_AUNIT 0 0 0 0 0 strict' v in
+  let s1 := mkFsm [] [] 0 0 0 0 (uw 32 hl) bp FSM_AUNIT 0 0 0 0 0 0 0 strict' v in
   let nbmlen := if obmlen >? 0 then IW_ROUNDUP obmlen FSM_AUNIT else FSM_AUNIT in
   init_lw s1 (IW_ROUNDUP (uw 32 hl) FSM_AUNIT) nbmlen.
 
